@@ -81,3 +81,11 @@ package wallet
 //@   ensures tip_is_ancestor: err == nil && rollback ==> TIP_H(w) == rollbackStamp.Height
 //@   ensures tip_hash_is_ancestor: err == nil && rollback ==> TIP_HASH(w) == chainHashAt(rollbackStamp.Height)
 //@   ensures stored_hash_is_chain: err == nil && rollback ==> A_HAS_HASH(rollbackStamp.Height) && A_HASH_AT(rollbackStamp.Height) == chainHashAt(rollbackStamp.Height)
+
+// C19: opening a wallet runs the schema upgrades of both stores and opens them
+// inside ONE read-write database transaction (so a failed or refused upgrade
+// rolls everything back): exactly one walletdb.Update happens on every path.
+//@ func OpenWithRetry(db, pubPass, cbs, params, recoveryWindow, syncRetryInterval) (w, err)
+//@   property C19
+//@   ensures one_transaction: dbUpdates == old(dbUpdates) + 1
+//@   ensures failure_no_wallet: err != nil ==> w == nil
